@@ -253,6 +253,7 @@ type task struct {
 	option         []any
 	err            error
 	skipPreHandler bool
+	verifTask
 }
 
 type taskManager struct {
@@ -264,6 +265,7 @@ type taskManager struct {
 	l    *list.List
 	done chan *task
 	num  uint32
+	verifTM
 }
 
 func (t *taskManager) executor(currentTask *task) {
@@ -273,10 +275,13 @@ func (t *taskManager) executor(currentTask *task) {
 			currentTask.output = nil
 			currentTask.err = safe.NewPanicErr(panicInfo, debug.Stack())
 		}
+		verifPoint(2, t, currentTask)
 		t.mu.Lock()
 		t.l.PushBack(currentTask)
+		verifPoint(3, t, currentTask)
 		t.updateChan()
 		t.mu.Unlock()
+		verifPoint(5, t, currentTask)
 	}()
 
 	ctx := initNodeCallbacks(currentTask.ctx, currentTask.nodeKey, currentTask.call.action.nodeInfo, currentTask.call.action.meta, t.opts...)
@@ -306,10 +311,12 @@ func (t *taskManager) submit(tasks []*task) error {
 	}
 	for _, currentTask := range tasks {
 		t.num += 1
+		verifPoint(0, t, currentTask)
 		go t.executor(currentTask)
 	}
 	if syncTask != nil {
 		t.num += 1
+		verifPoint(1, t, syncTask)
 		t.executor(syncTask)
 	}
 	return nil
@@ -332,9 +339,11 @@ func (t *taskManager) waitOne() (*task, bool) {
 	}
 	t.num--
 	ta := <-t.done
+	verifPoint(6, t, ta)
 	t.mu.Lock()
 	t.updateChan()
 	t.mu.Unlock()
+	verifPoint(7, t, ta)
 
 	if ta.err != nil {
 		return ta, true
@@ -364,6 +373,7 @@ func (t *taskManager) updateChan() {
 	for t.l.Len() > 0 {
 		select {
 		case t.done <- t.l.Front().Value.(*task):
+			verifPoint(4, t, t.l.Front().Value.(*task))
 			t.l.Remove(t.l.Front())
 		default:
 			return
